@@ -105,22 +105,25 @@ theorem eqMatch_of_mutual (x y : OfMatch)
       have := addr_eq_of_prefix hp (hdx (by omega)) (by rw [hdc]; exact hdy (by omega))
       simp [h32, this]
 
-/-- hypotheses on a transmitted match under which the code treats it as the standard says (each excluded class has a
-    `…_defect` witness: D38 `PrereqExact`, D36 ToS/ECN bits, D26 `exactL4` — in `Properties/C03` — and `strict_hostbits_defect`
-    in `Properties/C04`) -/
-structure MatchOk (r : OfMatch) : Prop where
+/-- hypotheses on a transmitted match under which the code treats it as the standard says, as far as subsumption, overlap,
+    lookup and rank go (each excluded class is an open C03 finding with a `…_defect` witness in `Properties/C03`: D38
+    `PrereqExact`, D36 ToS/ECN bits, D26 `exactL4`; `width`: `undefined_bits_defect` in `Properties/C04`) -/
+structure MatchCore (r : OfMatch) : Prop where
   prereq : PrereqExact r
   tos : r.nwTos % 4 = 0
   /-- none of the undefined bits 22..31 of the wildcard word -/
   width : r.wildcards < 2 ^ 22
   /-- an entry without any wildcard bit is an IPv4 TCP/UDP/ICMP entry (otherwise: D26) -/
   exactL4 : Spec.exact r = true → r.dlType = 0x0800 ∧ isL4Proto r.nwProto = true
-  /-- no address bits below the prefix length -/
+
+/-- … and, for the strict test `==` of the unrepaired code, no address bits below the prefix length
+    (`strict_hostbits_defect` in `Properties/C04`) -/
+structure MatchOk (r : OfMatch) : Prop extends MatchCore r where
   hostSrc : Spec.srcIgn r < 32 → r.nwSrc % 2 ^ Spec.srcIgn r = 0
   hostDst : Spec.dstIgn r < 32 → r.nwDst % 2 ^ Spec.dstIgn r = 0
 
 /-- non-strict MODIFY / DELETE: the code's test is the standard's subsumption -/
-theorem subsumes_code (a b : OfMatch) (ha : MatchOk a) (hb : MatchOk b) :
+theorem subsumes_code (a b : OfMatch) (ha : MatchCore a) (hb : MatchCore b) :
     matchesWith true (ofWire a) (ofWire b) = Spec.subsumes a b :=
   code_subsumes a b ha.prereq hb.prereq ha.tos hb.tos hb.width
 
@@ -128,7 +131,8 @@ theorem subsumes_code (a b : OfMatch) (ha : MatchOk a) (hb : MatchOk b) :
 theorem strict_iff (a b : OfMatch) (ha : MatchOk a) (hb : MatchOk b) :
     eqMatch (ofWire a) (ofWire b) = Spec.identical a b := by
   rw [Bool.eq_iff_iff]
-  simp only [Spec.identical, Bool.and_eq_true, ← subsumes_code a b ha hb, ← subsumes_code b a hb ha]
+  simp only [Spec.identical, Bool.and_eq_true, ← subsumes_code a b ha.toMatchCore hb.toMatchCore,
+    ← subsumes_code b a hb.toMatchCore ha.toMatchCore]
   constructor
   · intro h
     exact ⟨matchesWith_of_eqMatch true h, matchesWith_of_eqMatch true (eqMatch_symm h)⟩
@@ -211,7 +215,13 @@ theorem code_overlaps (a b : OfMatch) (ha : PrereqExact a) (hb : PrereqExact b) 
     Spec.W_NW_PROTO, Spec.W_TP_SRC, Spec.W_TP_DST]
   ac_rfl
 
-theorem overlaps_code (a b : OfMatch) (ha : MatchOk a) (hb : MatchOk b) : overlapsWith (ofWire a) (ofWire b) = Spec.overlaps a b :=
+/-- the strict test of the repaired code (C04-1): "each encompasses the other" is the standard's "identical header fields",
+    whatever bits the addresses carry below the prefix -/
+theorem mutual_iff (a b : OfMatch) (ha : MatchCore a) (hb : MatchCore b) :
+    (matchesWith true (ofWire b) (ofWire a) && matchesWith true (ofWire a) (ofWire b)) = Spec.identical a b := by
+  rw [subsumes_code a b ha hb, subsumes_code b a hb ha, Spec.identical, Bool.and_comm]
+
+theorem overlaps_code (a b : OfMatch) (ha : MatchCore a) (hb : MatchCore b) : overlapsWith (ofWire a) (ofWire b) = Spec.overlaps a b :=
   code_overlaps a b ha.prereq hb.prereq ha.tos hb.tos
 
 end Pox.OF
